@@ -483,6 +483,12 @@ var notCovered = map[string][]string{
 		"Check() reports 'type not found' iff a type reachable from the root is missing (checker pipeline); registering unused types changes nothing",
 		"observed on the unchanged tree and not fixed: `@a |` makes collect index an empty string (recovered by the API into a generic error)",
 	},
+	"C07": {
+		"that the compiled object has exactly own ++ inherited properties, marked with their origin and keeping required/optional: the merge loop runs through the Node interface family, treated as arbitrary here",
+		"duplicate property names, inheritance from a non-object or missing type, cyclic inheritance (processType's in-progress / compiled sets)",
+		"what Example() and the OpenAPI listing show for the merged object",
+		"AdditionalProperties.IsEqual outside its precondition (different modes): the existing test TestAdditionalProperties_IsEqual pins 'true' there",
+	},
 	"C09": {
 		"address-derived names of unnamed types (`#%p`, ISchema.AddUnnamedType) reaching an error message (SetIncorrectUserType)",
 		"independence from the registration order of AddType / AddRule as a whole-history property (no per-function contract states it)",
